@@ -180,9 +180,10 @@ class Server(base_server.BaseServer):
                 if sid in self.sockets:  # pragma: no cover
                     del self.sockets[sid]
         else:
-            for client in self.sockets.copy().values():
+            for sid, client in self.sockets.copy().items():
                 client.close(reason=self.reason.SERVER_DISCONNECT)
-            self.sockets = {}
+                # a client that connects meanwhile is not affected
+                self.sockets.pop(sid, None)
 
     def handle_request(self, environ, start_response):
         """Handle an HTTP request from the client.
